@@ -3,6 +3,8 @@ Initialize weather data
 """
 from typing import TYPE_CHECKING
 
+import pandas as pd
+
 if TYPE_CHECKING:
     from ..entities.clockStruct import ClockStruct
     from pandas import DataFrame
@@ -29,12 +31,12 @@ def read_weather_inputs(
     start_date = clock_sctruct.simulation_start_date
     end_date = clock_sctruct.simulation_end_date
 
-    if weather_df.Date.iloc[0] > start_date:
+    if weather_df.Date.min() > start_date:
         raise ValueError(
             "The first date of the climate data cannot be longer than the start date of the model."
         )
 
-    if weather_df.Date.iloc[-1] < end_date:
+    if weather_df.Date.max() < end_date:
         raise ValueError(
             "The model end date cannot be longer than the last date of climate data."
         )
@@ -42,5 +44,14 @@ def read_weather_inputs(
     # remove weather data outside of simulation dates
     weather_df = weather_df[weather_df.Date >= start_date]
     weather_df = weather_df[weather_df.Date <= end_date]
+
+    # the model addresses the records by day number: exactly one record per
+    # simulation day, in chronological order
+    weather_df = weather_df.sort_values("Date", kind="stable")
+    days = pd.DatetimeIndex(weather_df.Date)
+    if len(days) != len(clock_sctruct.time_span) or not (days == clock_sctruct.time_span).all():
+        raise ValueError(
+            "The climate data must contain exactly one record for every day of the simulation period."
+        )
 
     return weather_df
